@@ -4,6 +4,8 @@
 package main
 
 import (
+	"bufio"
+	"context"
 	"crypto/ecdsa"
 	"crypto/elliptic"
 	"crypto/rand"
@@ -16,13 +18,47 @@ import (
 	"fmt"
 	"math/big"
 	"net"
+	"net/http"
+	"net/http/httptest"
 	"os"
 	"sync"
 	"sync/atomic"
 	"time"
 
+	"reservoir/config"
+	"reservoir/logging"
+	"reservoir/metrics"
+	"reservoir/proxy"
 	"reservoir/proxy/certs"
 )
+
+// present opens a CONNECT tunnel to target through the real proxy and returns the leaf certificate the client is shown on the wire
+func present(phost, target string) (*x509.Certificate, error) {
+	conn, err := net.DialTimeout("tcp", phost, 3*time.Second)
+	if err != nil {
+		return nil, err
+	}
+	defer conn.Close()
+	conn.SetDeadline(time.Now().Add(8 * time.Second))
+	fmt.Fprintf(conn, "CONNECT %s HTTP/1.1\r\nHost: %s\r\n\r\n", target, target)
+	resp, err := http.ReadResponse(bufio.NewReader(conn), &http.Request{Method: "CONNECT"})
+	if err != nil {
+		return nil, err
+	}
+	if resp.StatusCode != 200 {
+		return nil, fmt.Errorf("CONNECT answered %d", resp.StatusCode)
+	}
+	host, _, _ := net.SplitHostPort(target)
+	tc := tls.Client(conn, &tls.Config{InsecureSkipVerify: true, ServerName: host})
+	if err := tc.Handshake(); err != nil {
+		return nil, err
+	}
+	pcs := tc.ConnectionState().PeerCertificates
+	if len(pcs) == 0 {
+		return nil, fmt.Errorf("no certificate presented")
+	}
+	return pcs[0], nil
+}
 
 type Step map[string]any
 
@@ -66,6 +102,18 @@ func main() {
 			fmt.Fprintln(os.Stderr, err)
 			os.Exit(2)
 		}
+		metrics.Global = metrics.NewMetrics()
+		pcfg := config.NewDefault()
+		pcfg.Cache.Type.Overwrite(config.CacheTypeMemory)
+		logging.Init(pcfg)
+		pctx, pcancel := context.WithCancel(context.Background())
+		px, err := proxy.NewProxy(pcfg, ca, pctx)
+		if err != nil {
+			fmt.Fprintln(os.Stderr, err)
+			os.Exit(2)
+		}
+		psrv := httptest.NewServer(px)
+		phost := psrv.Listener.Addr().String()
 		index := map[string]int{} // certificate serial -> small index
 		last := map[string]*tls.Certificate{}
 		enc.Encode(map[string]any{"b": bi + 1, "a": "reset"})
@@ -78,6 +126,23 @@ func main() {
 				index[k] = len(index) + 1
 			}
 			return index[k]
+		}
+		// the certificate a client is shown for target: index and what crypto/x509 says about it (the handshake proves the key)
+		wire := func(target string) (int, bool, bool) {
+			leaf, err := present(phost, target)
+			if err != nil {
+				return 0, false, true
+			}
+			host, _, _ := net.SplitHostPort(target)
+			k := leaf.SerialNumber.String()
+			if _, ok := index[k]; !ok {
+				index[k] = len(index) + 1
+			}
+			ok := leaf.VerifyHostname(host) == nil && len(leaf.DNSNames)+len(leaf.IPAddresses) == 1
+			if _, err := leaf.Verify(x509.VerifyOptions{Roots: pool, KeyUsages: []x509.ExtKeyUsage{x509.ExtKeyUsageServerAuth}}); err != nil {
+				ok = false
+			}
+			return index[k], ok, false
 		}
 		check := func(c *tls.Certificate, target string) bool {
 			host, _, _ := net.SplitHostPort(target)
@@ -116,6 +181,16 @@ func main() {
 					n = int(v)
 				}
 				var panicked atomic.Bool
+				wserials, woks, werr := []int{}, []bool{}, false
+				if n == 1 {
+					// the tunnel is the first to ask (after an expiry: the proxy itself must replace the certificate)
+					i, ok, e := wire(target)
+					if e {
+						werr = true
+					} else {
+						wserials, woks = append(wserials, i), append(woks, ok)
+					}
+				}
 				res := make([]*tls.Certificate, n)
 				errs := make([]error, n)
 				var wg sync.WaitGroup
@@ -164,6 +239,15 @@ func main() {
 						anyErr = true
 					}
 				}()
+				// and what a client is shown on a tunnel now: the certificate the cache holds
+				wi, wok, we := wire(target)
+				if we {
+					werr = true
+				} else {
+					wserials, woks = append(wserials, wi), append(woks, wok)
+				}
+				serials, oks = append(serials, wserials...), append(oks, woks...)
+				line["wire"], line["wire_err"] = wi, werr
 				line["panicked"] = panicked.Load()
 				line["serials"], line["ok"], line["err"], line["after"], line["n"] = serials, oks, anyErr, after, n
 			case "expire":
@@ -189,5 +273,8 @@ func main() {
 			}
 			enc.Encode(line)
 		}
+		psrv.CloseClientConnections()
+		psrv.Close()
+		pcancel()
 	}
 }
